@@ -44,7 +44,14 @@ class PreprocessorHexagon:
             with open(mp) as f:
                 in_qemu_gen = False
                 in_user_only = False
+                continued = False
                 for line in f.readlines():
+                    if continued:
+                        # Continuation of the macro line kept above. It is never a directive,
+                        # a comment line or a blank line which can be dropped.
+                        res.append(line.strip("\n"))
+                        continued = bool(re.search(r"\\\s*$", line))
+                        continue
                     if line == "\n":
                         continue
                     if re.match(r"#ifdef QEMU_GENERATE", line):
@@ -65,12 +72,14 @@ class PreprocessorHexagon:
                     if in_qemu_gen and is_vec_macro_file:
                         # QEMU_GENERATE macros of the vector macro file are included.
                         res.append(line.strip("\n"))
+                        continued = bool(re.search(r"\\\s*$", line))
                         continue
                     elif in_qemu_gen or in_user_only:
                         continue
                     if re.match(r"(\s*//)|(/\*)|(\s*\*)", line):  # Ignore comments
                         continue
                     res.append(line.strip("\n"))
+                    continued = bool(re.search(r"\\\s*$", line))
         # Join lines with an \ at the end
         i = 0
         while i != len(res):
